@@ -141,4 +141,10 @@ CHECKS = {
             dict(name="regress", run="^TestRegress", shards=(1, 1)),
         ],
     ),
+    "C20": dict(
+        pkg="./c20", level="exploration",
+        runs=[
+            dict(name="fold", run="^TestPropFold$", checks=(500, 5000), shards=(4, 16), shrinktime="20s"),
+        ],
+    ),
 }
